@@ -30,7 +30,7 @@ ASSUMPTIONS = [
 
 PATCH = ["hexahedron", "hexahedron20", "hexahedron27", "tetra", "tetra10", "quad", "quad8", "quad9", "triangle", "triangle6",
          "lagrange-quad-2", "lagrange-quad-3", "lagrange-hex-2"]
-CURVE_OK = {"quad8", "quad9", "triangle6"}
+CURVE_OK = {"quad8", "quad9", "triangle6", "hexahedron20"}
 MATS = ["NeoHooke", "NeoHookeCompressible", "tt:saint_venant_kirchhoff", "tt:storakers", "tt:blatz_ko", "LinearElasticLargeStrain", "yeoh+volumetric",
         "jax:blatz_ko"]
 
@@ -96,7 +96,11 @@ def patch_check(kind, case, rec):
     c = X.mean(0)
     uex = (X - c) @ H.T
     bmask = info["boundary"]
-    bounds = {"all": fem.Boundary(fc[0], mask=bmask, value=uex[bmask])}
+    bval = uex[bmask]
+    if case["mesh"].get("jseed", 0) % 3 == 1:
+        bval = np.asfortranarray(bval)  # the same numbers in column-major memory order (e.g. from (H @ X.T).T)
+        rec.label("fortran-ordered-boundary-values")
+    bounds = {"all": fem.Boundary(fc[0], mask=bmask, value=bval)}
     dof0, dof1 = fem.dof.partition(fc, bounds)
     ext0 = fem.dof.apply(fc, bounds, dof0)
     interior = int((~bmask).sum())
@@ -179,7 +183,7 @@ def load_strategy(name, tier):
         {
             "size": st.lists(fl(0.5, 2.5), min_size=3, max_size=3),
             "n": st.lists(st.integers(2, 4 if dim == 2 else 3), min_size=3, max_size=3),
-            "jitter": st.sampled_from([0.0, 0.1, 0.2]), "jseed": st.integers(0, 2**16),
+            "jitter": st.sampled_from([0.0, 0.1, 0.2]), "jseed": st.integers(0, 2**16), "curve": st.sampled_from([0.0, 0.04, 0.08]),
             "kind": st.sampled_from(["quad", "quad8", "quad9"] if dim == 2 else ["hexahedron", "hexahedron20"]),
             "mat": st_mat(),
             "ramp": st.lists(fl(-0.2, 0.4), min_size=1, max_size=6),
@@ -195,6 +199,8 @@ def load_check(name, case, rec):
     dim = 2 if name.endswith("planestrain") else 3
     size = np.array(case["size"][:dim])
     n = tuple(case["n"][:dim])
+    if case.get("curve", 0.0) and case["kind"] in ("quad8", "quad9", "hexahedron20"):
+        n = tuple(max(3, k) for k in n)  # curved interior edges need interior edges: at least two cells per axis
     mesh = (fem.Rectangle if dim == 2 else fem.Cube)(b=tuple(size), n=n)
     X = np.array(mesh.points)
     if case["jitter"]:
@@ -207,6 +213,16 @@ def load_check(name, case, rec):
         mesh = mesh.add_midpoints_edges()
     elif case["kind"] == "quad9":
         mesh = mesh.add_midpoints_edges().add_midpoints_faces()
+    if case.get("curve", 0.0) and case["kind"] in ("quad8", "quad9", "hexahedron20"):
+        # curved interior edges: the inserted (non-vertex) points inside the body are moved independently
+        P = np.array(mesh.points)
+        nv = len(X)
+        inner2 = ~np.any((np.abs(P) < 1e-12) | (np.abs(P - size) < 1e-12), axis=1)
+        inner2[:nv] = False
+        h2 = float(min(size / (np.array(n) - 1)))
+        P[inner2] += case["curve"] * h2 / np.sqrt(dim) * np.random.default_rng(case["jseed"] + 1).uniform(-1, 1, (int(inner2.sum()), dim))
+        mesh.update(points=P)
+        rec.label("curved-interior-edges")
     tmpl = {"quad": fem.RegionQuad, "quad8": fem.RegionQuadraticQuad, "quad9": fem.RegionBiQuadraticQuad, "hexahedron": fem.RegionHexahedron,
             "hexahedron20": fem.RegionQuadraticHexahedron}[case["kind"]]
     region = tmpl(mesh)
@@ -259,6 +275,8 @@ def load_check(name, case, rec):
             # -move/2 (docstring wording): both total stretches are admissible
             l2s = [1 + case["ramp2"]] if case["sym_axis"] else [1 + 2 * case["ramp2"], 1 + 1.5 * case["ramp2"]]
             cands = [c_ for c_ in (try_solve(um, mode, l1, l2) for l2 in l2s) if c_ is not None]
+            if len(cands) < len(l2s):
+                cands = []  # one of the admissible readings has no homogeneous solution for this material: undecidable
         else:
             cands = [c_ for c_ in [try_solve(um, mode, l1)] if c_ is not None]
         if not cands:
